@@ -250,3 +250,59 @@ Theorem parse_total : forall (du : list Z -> bool -> bool -> result pval),
   forall (rs : bool) o s, out_ok (parse_full du rs o s).
 Proof. intros du H rs o s. destruct rs; [exact (parse_total_rs du H o s)|exact (parse_total_py_full du H o s)]. Qed.
 Print Assumptions parse_total.
+
+(* ---- the model IS the code: Gen/ParseChain.v is TRANSLATED on every run (tools/vlib/gens/g84_parse_chain.py) from src/pendulum/parsing/__init__.py
+   (parse, _parse with its ladder of contextlib.suppress / try-except, _normalize, _parse_common after COMMON.match, _parse_iso8601_interval) and
+   src/pendulum/parser.py (_parse: the assembly of DateTime / Date / Time / Duration / Interval with its two OverflowError -> ParserError handlers).
+   try / except is translated as a match on the exception kind carried by the result monad; isinstance(e, K) is exn_isa PC_SUBCLASS K e with the class
+   hierarchy READ from parsing/exceptions (ParserError < ValueError).  parse_iso8601 (iso8601 rs, either backend) and dateutil (du) are parameters on
+   both sides, as in Model/ParseTotal.v.  Hand primitives: Model/ParseChainObj.v.
+   Side conditions (stated, not assumed silently): iso_wf = parse_iso8601 returns objects of the native classes (fields inside their ranges: the model's
+   normalize / at_midnight build datetime(...) without re-checking, the code runs the constructor); wf_now = options["now"] is a datetime. ---- *)
+From PV Require Import Gen.IsoRegex Model.ParseChainObj Gen.ParseChain Proofs.ParseChainFacts.
+
+(* parsing._parse: the ladder parse_iso8601 -> _parse_iso8601_interval -> _parse_common -> strict gate -> dateutil, every string, every option record *)
+Theorem model_is_code_parsing_parse : forall du rs o s, iso_wf (iso8601 rs) ->
+  pchain_parse_ladder (iso8601 rs) du s o = base_parse du rs o s /\
+  pchain_parse (iso8601 rs) du s o = bind (base_parse du rs o s) (fun r => pchain_normalize r o).
+Proof. intros; split; [apply pchain_parse_ladder_eq|apply pchain_parse_eq]; assumption. Qed.
+Print Assumptions model_is_code_parsing_parse.
+
+(* which exceptions the three kinds of handler catch *)
+Theorem model_is_code_except_classes : forall e,
+  exn_isa PC_SUBCLASS E_ValueError e = is_ve e /\
+  exn_isa PC_SUBCLASS E_ParserError e = match e with E_ParserError => true | _ => false end /\
+  exn_isa PC_SUBCLASS E_OverflowError e = match e with E_OverflowError => true | _ => false end.
+Proof. intros e; repeat split; [apply isa_value|apply isa_parser|apply isa_overflow]. Qed.
+Print Assumptions model_is_code_except_classes.
+
+(* _parse_common(text, **options): the code after COMMON.match on the generated pattern = common_parse_df, every string *)
+Theorem model_is_code_parsing_parse_common : forall s o,
+  pchain_parse_common s o = match common_parse_df (o_day_first o) s with Ok p => Ok (R_i (I_p p)) | Raise e => Raise e end.
+Proof. exact pchain_parse_common_eq. Qed.
+Print Assumptions model_is_code_parsing_parse_common.
+
+(* _normalize(parsed, **options) *)
+Theorem model_is_code_parsing_normalize : forall r o, wf_parsed r -> wf_now o -> pchain_normalize r o = Ok (normalize o r).
+Proof. exact pchain_normalize_eq. Qed.
+Print Assumptions model_is_code_parsing_normalize.
+
+(* _parse_iso8601_interval(text), after the partial evaluation on the None-ness of start / end / duration *)
+Theorem model_is_code_parsing_parse_iso8601_interval : forall iso s, iso_wf iso ->
+  pchain_parse_iso8601_interval iso s = match interval_parse iso s with Ok f => Ok (R_form f) | Raise e => Raise e end.
+Proof. exact pchain_parse_iso8601_interval_eq. Qed.
+Print Assumptions model_is_code_parsing_parse_iso8601_interval.
+
+(* parser._parse(text, **options) = parse_full: "now", the isinstance dispatch, the Interval assembly and both OverflowError handlers *)
+Theorem model_is_code_parser_parse : forall du rs o s, iso_wf (iso8601 rs) -> wf_now o ->
+  (forall r, base_parse du rs o s = Ok r -> wf_parsed r /\ kind_ok r) ->
+  pchain_parser_parse rs (iso8601 rs) du s o = parse_full du rs o s.
+Proof. exact pchain_parser_parse_eq. Qed.
+Print Assumptions model_is_code_parser_parse.
+
+(* the whole chain at once, with the side condition reduced to the two parameters: parse_iso8601 and dateutil return objects of the native classes
+   (kind datetime / date / time with fields inside their ranges; any Duration), options["now"] is a datetime *)
+Theorem model_is_code_pendulum_parse : forall du rs o s, iso_native (iso8601 rs) -> du_native du -> wf_now o ->
+  pchain_parser_parse rs (iso8601 rs) du s o = parse_full du rs o s.
+Proof. exact pchain_full_eq. Qed.
+Print Assumptions model_is_code_pendulum_parse.
